@@ -12,6 +12,7 @@ Monitors: task-state (plain lookups), task-state-default (lookups with an explic
 
 from __future__ import annotations
 
+import itertools
 import logging
 import random
 from typing import Any
@@ -215,8 +216,30 @@ def explore(R: Recorder, programs: Any, rng: random.Random, cap: int, nrandom: i
         R.inconclusive.append(f"batch driver ended {status}: {value!r}")
 
 
+def timeout_programs():  # noqa: ANN201
+    """a function run through the `timeout` helper is one more task: what it enters stays its own - also in the window between the
+    deadline (or the caller's cancellation) and the end of its unwinding"""
+    for via in ("timeout", "timeout-cancelled"):
+        for inner_kind in ("updated", "ascope", "sscope"):
+            for slow in (False, True):
+                pid = itertools.count(1)
+
+                def probe() -> dict[str, Any]:
+                    return {"op": "probe", "id": next(pid)}
+
+                hang = {"op": "forever", "tag": "to.hang", **({"on_cancel": [{"op": "gate", "label": "to.cleanup"}, probe()]} if slow else {})}
+                inner = {"op": "block", "kind": inner_kind, "name": "to.inner", "supply": [["R1", 2], ["D1", 20]], "body": [probe(), hang]}
+                call = {"op": "spawn", "via": via, "name": "to", "body": [probe(), inner]}
+                own = {"op": "block", "kind": "updated", "name": "own", "supply": [["R1", 3]], "body": [probe(), {"op": "gate", "label": "p.own"}, probe()]}
+                root = {"op": "block", "kind": "ascope", "name": "root", "supply": [["R1", 1], ["D2", 10]], "body": [probe(), call, probe(), own, probe(), {"op": "gate", "label": "p.end"}, probe()]}
+                yield [probe(), root, probe()], 1
+
+
 def run(R: Recorder, tier: str, seed: int, shard: int, nshards: int) -> None:
     nprog, cap, nrandom = PROGRAMS[tier]
+    if shard == 0:
+        explore(R, timeout_programs(), random.Random(f"C03/{seed}/timeout"), cap, nrandom)
+        R.count("programs_through_the_timeout_helper", 12)
     R.flags["exhaustive_core"] = f"DFS over gate-release orders for every generated program (cap {cap}, then {nrandom} random schedules)"
     rng = random.Random(f"C03/{seed}/{shard}")
 
